@@ -314,10 +314,16 @@ func VerifC08_Nested() {
 	proto.VerifAddField(outer, 1, "in_ner", "inNer", inner, false)
 	proto.VerifAddField(outer, 2, "s", "s", proto.VerifBasic(proto.STRING), false)
 	proto.VerifBuild(outer)
-	opts := conv.Options{}
+	opts := conv.Options{DisallowUnknownField: vrt.Bool()}
 	var ib []byte
 	vals := make([]verifVal, cnt)
 	keys := make([]verifVal, cnt)
+	// an unknown field inside the nested message, before or after its known content
+	iunk := vrt.Bool()
+	iunkFirst := vrt.Bool()
+	if iunk && iunkFirst {
+		ib = gpw.AppendVarint(gpw.AppendTag(ib, 9, gpw.VarintType), 1)
+	}
 	switch shape {
 	case 0:
 		if cnt > 0 {
@@ -348,6 +354,9 @@ func VerifC08_Nested() {
 			ib = gpw.AppendBytes(gpw.AppendTag(ib, 2, gpw.BytesType), payload)
 		}
 	}
+	if iunk && !iunkFirst {
+		ib = gpw.AppendBytes(gpw.AppendTag(ib, 9, gpw.BytesType), []byte{'u'})
+	}
 	var b []byte
 	b = gpw.AppendBytes(gpw.AppendTag(b, 1, gpw.BytesType), ib)
 	sib := vrt.Bool()
@@ -366,6 +375,7 @@ func VerifC08_Nested() {
 		vrt.Reach("error")
 		return
 	}
+	vrt.Assert(!(iunk && opts.DisallowUnknownField), "C08.nested.unknown.disallowed.error")
 	vrt.Reach("converted")
 	root, ok := vrt.JParse(out)
 	vrt.Assert(ok && root.Kind == vrt.JObject, "C08.nested.valid-json")
